@@ -25,6 +25,11 @@ def jobs(tier, seed):
         if L <= 14 or L in (154, 159, 452, 455):       # the same datagram into a decoder object that held a burst message before
             out.append(('parse.tx.len=%d.reused' % L, 'h_parse', dict(cls='TxMsg', L=L, prime='after-burst')))
             out.append(('parse.rx.len=%d.reused' % L, 'h_parse', dict(cls='RxMsg', L=L, prime='after-burst')))
+    for ver in (0, 1):
+        for mod in ('ModGMSK', 'Mod8PSK'):
+            out.append(('recv.rx.v%d.%s' % (ver, mod), 'h_recv_rx', dict(ver=ver, mod=mod)))
+        for blen in (148, 444):
+            out.append(('recv.tx.v%d.%d' % (ver, blen), 'h_recv_tx', dict(ver=ver, blen=blen)))
     for blen in (148, 444):
         for legacy in (False, True):
             out.append(('trxcon.rx.%d.%s' % (blen, 'legacy' if legacy else 'plain'), 'c_rx', dict(blen=blen, legacy=legacy)))
@@ -62,6 +67,44 @@ def h_enc_rx(ctx, ver, mod, nope, legacy):
     want = layout_rx(ver, m.tn, m.fn, m.rssi, m.toa256, None if nope else items_of(m.burst), legacy,
                      nope=nope, mod=mod, tsc_set=m.tsc_set, tsc=m.tsc, ci=m.ci)
     check_seq_eq(ctx, 'octet', raw_of(data), want)
+
+
+def _data_if(ctx, ver):
+    from .c18 import TK
+    T = env.load(ctx, *TK)
+    net, log, rnd = env.std_env(ctx, T)
+    trx = mk_trx(ctx, T, 'T', 5700, ver=ver)
+    return T, trx.data_if
+
+
+def h_recv_rx(ctx, ver, mod):
+    """the receive path of DATAInterface (socket read of limited size + parse + version match): the largest datagrams the toolkit
+    exchanges for this shape (legacy padding included on v0) come back whole"""
+    T, di = _data_if(ctx, ver)
+    with env.symbolic(ctx):
+        m = sym_rx(ctx, T, ver, mod, False)
+        d = m.gen_msg(ver == 0)
+        di.sock.inject(d if ctx.mode == 'sym' else bytes(d))
+        with ctx.no_raise('recv_rx_msg:no-exception'):
+            r = di.recv_rx_msg()
+        ctx.check('received', r is not None)
+        if r is None: return
+        for f in ('ver', 'fn', 'tn', 'rssi', 'toa256'): ctx.check(f, eq(getattr(r, f), getattr(m, f)))
+        check_seq_eq(ctx, 'burst', r.burst, m.burst)
+
+
+def h_recv_tx(ctx, ver, blen):
+    T, di = _data_if(ctx, ver)
+    with env.symbolic(ctx):
+        m = sym_tx(ctx, T, ver, blen)
+        d = m.gen_msg(True)
+        di.sock.inject(d if ctx.mode == 'sym' else bytes(d))
+        with ctx.no_raise('recv_tx_msg:no-exception'):
+            r = di.recv_tx_msg()
+        ctx.check('received', r is not None)
+        if r is None: return
+        for f in ('ver', 'fn', 'tn', 'pwr'): ctx.check(f, eq(getattr(r, f), getattr(m, f)))
+        check_seq_eq(ctx, 'burst', r.burst, m.burst)
 
 
 def h_parse(ctx, cls, L, prime='fresh'):
